@@ -342,7 +342,11 @@ func castRecordBatch(batch arrow.RecordBatch, targetSchema *arrow.Schema) (arrow
 			cols[i] = srcCol
 			continue
 		}
-		datum, err := compute.CastDatum(ctx, compute.NewDatum(srcCol), compute.SafeCastOptions(targetType))
+		// NewDatum retains srcCol; release that reference once the cast is
+		// done (or has failed), or the source batch outlives the turn.
+		srcDatum := compute.NewDatum(srcCol)
+		datum, err := compute.CastDatum(ctx, srcDatum, compute.SafeCastOptions(targetType))
+		srcDatum.Release()
 		if err != nil {
 			// Release already-cast columns
 			for j := range i {
